@@ -81,6 +81,9 @@ pub fn scenario(ch: &mut Chooser, thorough: bool) -> Exec {
     // writer's stream is then abortive (RST), which may end the stream early but must not
     // hand the reader anything that is not a prefix
     let reader_sends_byte = ch.flag("reader_sends_one_unread_byte_first");
+    // the writer splits its stream and drops the read half at once (nothing unread), then
+    // writes through the owned write half: a FIN from the other side must not reset anything
+    let writer_drops_read_half = !try_write && !reader_sends_byte && ch.flag("writer_drops_its_read_half_first");
     let abortive_possible = reader_sends_byte && close == Close::Drop;
 
     let mut b = builder(1);
@@ -197,7 +200,7 @@ pub fn scenario(ch: &mut Chooser, thorough: bool) -> Exec {
     let chunks_w = chunks.clone();
     let writer = move |dst: SocketAddr| async move {
         let s = TcpStream::connect(dst).await;
-        let mut s = match s {
+        let s = match s {
             Ok(s) => {
                 st_w.borrow_mut().w_connected = Some(Ok(()));
                 s
@@ -207,6 +210,42 @@ pub fn scenario(ch: &mut Chooser, thorough: bool) -> Exec {
                 return Ok(());
             }
         };
+        if writer_drops_read_half {
+            let (r, mut w) = s.into_split();
+            drop(r);
+            let mut off = 0;
+            for c in chunks_w {
+                let data: Vec<u8> = (off..off + c).map(pat).collect();
+                match w.write_all(&data).await {
+                    Ok(()) => st_w.borrow_mut().accepted.extend_from_slice(&data),
+                    Err(e) => {
+                        st_w.borrow_mut().w_err = Some(errk(&e));
+                        return Ok(());
+                    }
+                }
+                off += c;
+            }
+            match close {
+                Close::Shutdown => {
+                    let r = w.shutdown().await;
+                    let mut g = st_w.borrow_mut();
+                    if let Err(e) = r {
+                        g.w_err = Some(errk(&e));
+                    }
+                    g.w_closed = true;
+                    drop(g);
+                    std::future::pending::<()>().await;
+                }
+                Close::Drop => {
+                    st_w.borrow_mut().w_closed = true;
+                    drop(w);
+                    std::future::pending::<()>().await;
+                }
+                Close::Keep => std::future::pending::<()>().await,
+            }
+            return Ok(());
+        }
+        let mut s = s;
         let mut off = 0;
         for c in chunks_w {
             let data: Vec<u8> = (off..off + c).map(pat).collect();
@@ -408,7 +447,7 @@ pub fn scenario(ch: &mut Chooser, thorough: bool) -> Exec {
     if let Some(v) = violation.as_mut() {
         v.sig = format!("{}|close={:?}|cap={}|late={}", v.clause, close, cap, delay > 0);
         v.scenario = format!(
-            "tier={} cap={cap} chunks={chunks:?} try_write={try_write} close={close:?} reader={rpat:?} topo={topo:?} split={split} reader_start={delay} reader_half_closes={reader_half_closes} reader_sends_byte={reader_sends_byte}",
+            "tier={} cap={cap} chunks={chunks:?} try_write={try_write} close={close:?} reader={rpat:?} topo={topo:?} split={split} reader_start={delay} reader_half_closes={reader_half_closes} reader_sends_byte={reader_sends_byte} writer_drops_read_half={writer_drops_read_half}",
             if thorough { "thorough" } else { "quick" }
         );
         v.actions = obs.clone();
